@@ -15,7 +15,7 @@ Definition mkv (agree accept : bool) : verdict :=
 
 Definition is_ok (v : verdict) : bool := match v with VOk => true | _ => false end.
 
-Definition run_cases {A} (chk : A -> verdict) (cs : list (nat * A)) : nat * list (nat * verdict) :=
+Definition run_cases {A} (chk : A -> verdict) (cs : list (int * A)) : nat * list (int * verdict) :=
   (length cs,
    filter (fun p => negb (is_ok (snd p))) (map (fun p => (fst p, chk (snd p))) cs)).
 
